@@ -18,7 +18,7 @@ RULE = (
     "the left, or x is derived; distinct key = (k type, x kind, form)."
 )
 ASSUMPTIONS = [
-    "finite non-zero k and element values (division never by zero)",
+    "finite k (zero included except as a divisor) and non-zero element values",
     "float32 operands are compared with relative tolerance 1e-6 (numpy keeps float32 precision for float32 scalars), all others 1e-12",
     "an ndarray k is paired with Arrays only (a Scalar holds one float)",
 ]
@@ -88,6 +88,13 @@ def ref_value(form, k, v):
 def make_k(ktype, mag, n):
     import numpy
 
+    if mag == 0:
+        z = {"int": 0, "float": 0.0, "np.float64": numpy.float64(0.0), "np.float32": numpy.float32(0.0), "np.int32": numpy.int32(0), "np.int64": numpy.int64(0), "nd0": numpy.array(0.0)}
+        if ktype in z:
+            return z[ktype]
+        if ktype == "nd1_float64":
+            return numpy.zeros(n, dtype=numpy.float64)
+        return numpy.zeros(n, dtype=numpy.int64)
     if ktype == "int":
         return int(mag) or 3
     if ktype == "float":
@@ -156,6 +163,8 @@ class Checker:
         xv = [x.GetValue()] if is_scalar else list(x.GetValues())
         n = len(xv)
         ktype, form = case["ktype"], case["form"]
+        if case["kmag"] == 0 and form in ("x/k", "x//k"):
+            return  # division by zero is not part of the statement
         k = make_k(ktype, case["kmag"], n)
         qx = x.GetQuantity()
         before = (qx, list(xv))
@@ -257,7 +266,7 @@ def _strategies(db, um):
             "u2": u2,
             "c2": c2,
             "e2": e2,
-            "kmag": draw(st.one_of(st.sampled_from([2.0, 3.0, -2.0, 7.0]), gen.moderate_values(1.0, 1e3))),
+            "kmag": draw(st.one_of(st.sampled_from([2.0, 3.0, -2.0, 7.0, 0.0, 1.0, -1.0, 0.0]), gen.moderate_values(1.0, 1e3))),
             "values": draw(st.lists(gen.moderate_values(1e-2, 1e4), min_size=0, max_size=4)),
         }
 
